@@ -50,3 +50,129 @@ def _get_true_interval_masks(boolean_vector, result):
     # every True element is covered
     ensures(forall(0, len(boolean_vector), lambda k: implies(
         boolean_vector[k], exists(0, len(result), lambda r: result[r][k]))))
+
+
+# --------------------------------------------------------------------------- deferred acceptance
+
+@spec
+def gs_matched(cand, old_cand, matches, s):
+    """Storm s currently holds a rise: the last candidate it proposed to (lists shrink from the end)."""
+    return (len(cand[s]) < len(old_cand[s])
+            and old_cand[s][len(cand[s])] in matches
+            and matches[old_cand[s][len(cand[s])]] == s)
+
+
+@contract("spowtd.classify:find_stable_matching",
+          args={"storm_candidates": "dict[int,list[int]]", "jump_preferences": "dict[int,dict[int,real]]"},
+          returns="dict[int,int]")
+def _find_stable_matching(storm_candidates, jump_preferences, result):
+    """C01: one-to-one, candidate pairs only.  C02: no blocking pair (storm side by list
+    position = its duration preference, rise side by preference value)."""
+    # candidates of one storm are distinct, and every listed rise ranks that storm
+    requires(forall_int(lambda s, k, k2: implies(
+        s in storm_candidates and 0 <= k and k < k2 and k2 < len(storm_candidates[s]),
+        storm_candidates[s][k] != storm_candidates[s][k2])))
+    requires(forall_int(lambda s, k: implies(
+        s in storm_candidates and 0 <= k and k < len(storm_candidates[s]),
+        storm_candidates[s][k] in jump_preferences and s in jump_preferences[storm_candidates[s][k]])))
+    modifies("storm_candidates")
+    # frame: lists only shrink from the end
+    ensures(forall_int(lambda s: (s in storm_candidates) == (s in old(storm_candidates))))
+    ensures(forall_int(lambda s, k: implies(
+        s in storm_candidates,
+        len(storm_candidates[s]) <= len(old(storm_candidates)[s])
+        and implies(0 <= k and k < len(storm_candidates[s]), storm_candidates[s][k] == old(storm_candidates)[s][k]))))
+    # every recorded pair is a candidate pair; the rise is the last one its storm proposed to
+    ensures(forall_int(lambda j: implies(
+        j in result,
+        result[j] in old(storm_candidates)
+        and len(storm_candidates[result[j]]) < len(old(storm_candidates)[result[j]])
+        and old(storm_candidates)[result[j]][len(storm_candidates[result[j]])] == j)))
+    # one-to-one
+    ensures(forall_int(lambda j1, j2: implies(j1 in result and j2 in result and j1 != j2, result[j1] != result[j2])))
+    # stability: no candidate pair (s, j = old[s][k]) blocks the result
+    ensures(forall_int(lambda s, k: implies(
+        s in old(storm_candidates) and 0 <= k and k < len(old(storm_candidates)[s]),
+        not (not (old(storm_candidates)[s][k] in result and result[old(storm_candidates)[s][k]] == s)
+             and (not gs_matched(storm_candidates, old(storm_candidates), result, s) or k > len(storm_candidates[s]))
+             and (old(storm_candidates)[s][k] not in result
+                  or jump_preferences[old(storm_candidates)[s][k]][s]
+                  > jump_preferences[old(storm_candidates)[s][k]][result[old(storm_candidates)[s][k]]])))))
+    loop(0, types={"matches": "dict[int,int]"}, inv=lambda:
+         forall_int(lambda s: (s in storm_candidates) == (s in old(storm_candidates)))
+         and forall_int(lambda s, k: implies(
+             s in storm_candidates,
+             len(storm_candidates[s]) <= len(old(storm_candidates)[s])
+             and implies(0 <= k and k < len(storm_candidates[s]),
+                         storm_candidates[s][k] == old(storm_candidates)[s][k])))
+         # I1: matchable storms have candidates left
+         and forall_int(lambda s: implies(s in matchable_storms, s in storm_candidates and len(storm_candidates[s]) > 0))
+         # I2 / I4: a matched storm is not matchable and is matched to the last rise it proposed to
+         and forall_int(lambda j: implies(
+             j in matches,
+             matches[j] in storm_candidates and matches[j] not in matchable_storms
+             and len(storm_candidates[matches[j]]) < len(old(storm_candidates)[matches[j]])
+             and old(storm_candidates)[matches[j]][len(storm_candidates[matches[j]])] == j))
+         # I3: every rise a storm has proposed to is matched at least as well
+         and forall_int(lambda s, k: implies(
+             s in storm_candidates and len(storm_candidates[s]) <= k and k < len(old(storm_candidates)[s]),
+             old(storm_candidates)[s][k] in matches
+             and jump_preferences[old(storm_candidates)[s][k]][matches[old(storm_candidates)[s][k]]]
+             >= jump_preferences[old(storm_candidates)[s][k]][s]))
+         # I5: every storm is matchable, exhausted, or matched
+         and forall_int(lambda s: implies(
+             s in storm_candidates,
+             s in matchable_storms or len(storm_candidates[s]) == 0
+             or gs_matched(storm_candidates, old(storm_candidates), matches, s))))
+
+
+# --------------------------------------------------------------------------- native inputs (bounded run-time check / witness search)
+
+@examples("spowtd.classify:get_mystery_jump_mask")
+def _ex_mystery(tier, rng):
+    import itertools
+    import numpy as np
+    for n in range(0, 6 if tier == "quick" else 8):
+        for bits in itertools.product([False, True], repeat=2 * n):
+            yield {"is_jump": np.array(bits[:n], dtype=bool), "is_raining": np.array(bits[n:], dtype=bool)}
+
+
+@examples("spowtd.classify:get_true_interval_masks")
+def _ex_masks(tier, rng):
+    from pyvc.native import small_bool_vectors
+    for v in small_bool_vectors(8 if tier == "quick" else 12):
+        yield {"boolean_vector": v}
+
+
+@adapter("spowtd.classify:get_true_interval_masks")
+def _ad_masks(repo):
+    from pyvc.native import resolve_function
+    f = resolve_function(repo, "spowtd.classify:get_true_interval_masks")
+    return lambda boolean_vector: list(f(boolean_vector))
+
+
+@examples("spowtd.classify:find_stable_matching")
+def _ex_gs(tier, rng):
+    """All bipartite candidate graphs on <= 3 storms x <= 3 rises with every ordering of each
+    storm's list and preference values in {0,1,2} (ties included), storms keyed 1.., rises 10.."""
+    import itertools
+    S, J = (3, 3) if tier == "quick" else (3, 4)
+    storms = list(range(1, S + 1))
+    jumps = list(range(10, 10 + J))
+    subsets = []
+    for r in range(0, J + 1):
+        for sub in itertools.combinations(jumps, r):
+            subsets.extend(itertools.permutations(sub))
+    count = 0
+    limit = 4000 if tier == "quick" else 40000
+    combos = list(itertools.product(subsets, repeat=S))
+    rng.shuffle(combos)
+    for lists in combos:
+        prefs = {}
+        for s, lst in zip(storms, lists):
+            for j in lst:
+                prefs.setdefault(j, {})[s] = float(-rng.randint(0, 2))
+        yield {"storm_candidates": {s: list(l) for s, l in zip(storms, lists)}, "jump_preferences": prefs}
+        count += 1
+        if count >= limit:
+            return
